@@ -226,6 +226,23 @@ Proof. repeat split; vm_compute; reflexivity. Qed.
 Example C07_ex_nan_is_a_nan : f_isnan 9221120237041090560 = true /\ f_isnan 0 = false.
 Proof. split; vm_compute; reflexivity. Qed.
 
+(* Keys that rank Equal without being the same Go map key, in two DIFFERENT operands (each map is in the universe
+   on its own): pointer keys to equal pointees (VPtr id x: identity id, pointee x) and any-keys of different
+   dynamic width.  The mirror law and transitivity above apply to them (inU), and the model ranks them Equal /
+   by their values - what the real rankMaps does when it looks each value up under its map's OWN key. *)
+Example C07_ex_rank_equal_keys_across_operands :
+  let p1 := VMapping MGoMap [VPtr 1 1] [VStr [97]] in
+  let p2 := VMapping MGoMap [VPtr 2 1] [VStr [97]] in
+  let p3 := VMapping MGoMap [VPtr 3 1] [VStr [98]] in
+  let w1 := VMapping MGoMap [VInt 0 1] [VStr [97]] in
+  let w2 := VMapping MGoMap [VInt 64 1] [VStr [97]] in
+  let w3 := VMapping MGoMap [VInt 64 1] [VStr [98]] in
+  forallb (inU 16%nat) [p1; p2; p3; w1; w2; w3] = true /\
+  rank0 16 p1 p2 = R Eq /\ rank0 16 p2 p1 = R Eq /\ rank0 16 p1 p3 = R Lt /\ rank0 16 p3 p1 = R Gt /\
+  rank0 16 w1 w2 = R Eq /\ rank0 16 w2 w1 = R Eq /\ rank0 16 w1 w3 = R Lt /\ rank0 16 w3 w1 = R Gt /\
+  compare0 16 p1 p2 = R false /\ compare0 16 w1 w2 = R false.
+Proof. vm_compute. repeat split; reflexivity. Qed.
+
 Print Assumptions C07_rank_never_hangs.
 Print Assumptions C07_rank_is_a_pure_function_on_the_universe.
 Print Assumptions C07_rank_of_fresh_collator_is_pure.
